@@ -2,6 +2,8 @@
 Driver for the `deps` protocol (C04): the emission order of Model.Deps on recorded names/deps.
   order <names>|<deps> …   (one word per declaration; names/deps are comma separated hex strings, `-` = none)
       → order <i0> <i1> …
+  units s:<names>|<deps> g:<names>|<deps>;<names>|<deps> …   (top-level declarations: single ones and const/var groups)
+      → units <names>|<deps> … order <i0> …     (Model.Deps.declUnits, then emitOrder on them)
 -/
 import Driver.Util
 import GooseVerif.Model.Deps
@@ -21,8 +23,26 @@ def parseDecl (w : String) : Option DeclInfo :=
     pure { names := names, deps := deps }
   | _ => none
 
+/-- `s:<names>|<deps>` a single declaration, `g:<names>|<deps>;<names>|<deps>;…` a const/var group (`g:` alone: no specs) -/
+def parseTop (w : String) : Option TopDecl :=
+  if w.startsWith "s:" then (parseDecl (w.drop 2).toString).map TopDecl.single
+  else if w == "g:" then some (.group [])
+  else if w.startsWith "g:" then (((w.drop 2).toString.splitOn ";").mapM parseDecl).map TopDecl.group
+  else none
+
+def hexList (xs : List String) : String :=
+  if xs.isEmpty then "-" else ",".intercalate (xs.map (fun x => hexOrDash x.toUTF8.toList))
+
 def step (ws : List String) : String :=
   match ws with
+  | "units" :: rest =>
+    -- the units `declUnits` makes of the top-level declarations, then the order they are emitted in
+    match rest.mapM parseTop with
+    | some tops =>
+      let us := declUnits tops
+      "units " ++ " ".intercalate (us.map (fun u => hexList u.names ++ "|" ++ hexList u.deps)) ++ " order " ++
+        " ".intercalate ((emitOrder us).map toString)
+    | none => "bad-op"
   | "order" :: rest =>
     match rest.mapM parseDecl with
     | some ds => "order " ++ " ".intercalate ((emitOrder ds).map toString)
